@@ -9,6 +9,7 @@ package c13
 
 import (
 	"fmt"
+	"github.com/ethereum/go-ethereum/rlp"
 	"os"
 	"sort"
 	"strings"
@@ -75,6 +76,7 @@ type evSpec struct {
 	Validators                 []uint32
 	WarmUp                     bool // the checkers validated another event under another node state before
 	ParentsBeforeSeq           bool // the event's parents are assigned before its sequence number (an emitter picks parents first)
+	StateDecodedInPlace        bool // the node's validators object was RLP-decoded into twice (an earlier group first), as a re-read state struct is
 	NextEpochPrepared          bool // before the check somebody derived the next epoch's set from the current one (Builder(), Set, Build)
 }
 
@@ -480,6 +482,19 @@ func build(e evSpec, weights []uint32) (dag.Event, dag.Events, *eventcheck.Check
 		b.Set(idx.ValidatorID(v), pos.Weight(weights[i]))
 	}
 	rd := &reader{b.Build(), idx.Epoch(e.CurEpoch)}
+	if e.StateDecodedInPlace {
+		// the object first held another group (with this event's creator and two strangers in it)
+		ob := pos.NewBuilder()
+		ob.Set(idx.ValidatorID(e.Creator), 3)
+		ob.Set(idx.ValidatorID(e.Creator)+11, 2)
+		ob.Set(idx.ValidatorID(e.Creator)+12, 1)
+		obj := ob.Build()
+		if enc, err := rlp.EncodeToBytes(rd.v); err == nil {
+			if err := rlp.DecodeBytes(enc, obj); err == nil {
+				rd.v = obj
+			}
+		}
+	}
 	ch := &eventcheck.Checkers{
 		Basiccheck:   basiccheck.New(),
 		Epochcheck:   epochcheck.New(rd),
@@ -526,6 +541,7 @@ func propC13(t *rapid.T) {
 	e.WarmUp = rapid.Bool().Draw(t, "longLivedCheckers")
 	e.ParentsBeforeSeq = rapid.Bool().Draw(t, "parentsAssignedBeforeSeq")
 	e.NextEpochPrepared = rapid.IntRange(0, 2).Draw(t, "nextEpochPrepared") == 0
+	e.StateDecodedInPlace = rapid.IntRange(0, 2).Draw(t, "stateDecodedInPlace") == 0
 	weights := make([]uint32, len(e.Validators))
 	for i := range weights {
 		weights[i] = rapid.Uint32Range(1, 5).Draw(t, fmt.Sprintf("w%d", i))
